@@ -8,6 +8,7 @@ import Ahbicht.Model.Resolve
 import Ahbicht.Model.Extract
 import Ahbicht.Model.Val
 import Ahbicht.Model.Time
+import Ahbicht.Model.Json
 /-!
 # line-protocol driver: one JSON request per line on stdin, one JSON answer per line on stdout
 -/
@@ -132,6 +133,58 @@ def outJson (o : Out) : Json :=
 
 def vErrName : VErr → String | .notImplemented => "NotImplementedError" | .valueError => "ValueError" | .other => "other"
 
+-- order-preserving wire form of `J`: objects travel as {"o": [[k, v], …]}, arrays as {"a": […]}
+mutual
+partial def jOfWire (w : Json) : Except String J :=
+  match w with
+  | Json.null => pure .null
+  | Json.bool b => pure (.bool b)
+  | Json.str s => pure (.str s)
+  | _ =>
+    match w.getObjVal? "a" with
+    | .ok (Json.arr xs) => do pure (.arr (← jlOfWire xs.toList))
+    | _ => match w.getObjVal? "o" with
+      | .ok (Json.arr kvs) => do pure (.obj (← joOfWire kvs.toList))
+      | _ => throw "bad wire json"
+partial def jlOfWire (xs : List Json) : Except String JL :=
+  match xs with
+  | [] => pure .nil
+  | x :: rest => do pure (.cons (← jOfWire x) (← jlOfWire rest))
+partial def joOfWire (kvs : List Json) : Except String JO :=
+  match kvs with
+  | [] => pure .nil
+  | kv :: rest => do
+    let a ← kv.getArr?
+    let k ← (a[0]? |>.getD Json.null).getStr?
+    pure (.cons k (← jOfWire (a[1]? |>.getD Json.null)) (← joOfWire rest))
+end
+
+mutual
+partial def wireOfJ : J → Json
+  | .null => Json.null
+  | .bool b => Json.bool b
+  | .str s => Json.str s
+  | .arr l => Json.mkObj [("a", Json.arr (wireOfJL l).toArray)]
+  | .obj o => Json.mkObj [("o", Json.arr (wireOfJO o).toArray)]
+partial def wireOfJL : JL → List Json
+  | .nil => []
+  | .cons x xs => wireOfJ x :: wireOfJL xs
+partial def wireOfJO : JO → List Json
+  | .nil => []
+  | .cons k v rest => Json.arr #[Json.str k, wireOfJ v] :: wireOfJO rest
+end
+
+def roundTrip (cls : String) (j : J) : Option J :=
+  match cls with
+  | "rc" => (loadRc j).map dumpRc
+  | "fc" => (loadFcResult j).map dumpFcResult
+  | "efc" => (loadEfc j).map dumpEfc
+  | "ahb" => (loadAhb j).map dumpAhb
+  | "extract" => (loadExtract j).map dumpExtract
+  | "cer" => (loadCer j).map dumpCer
+  | "tree" => (loadTree j).map dumpTree
+  | _ => none
+
 def partJson (p : Part) (cond : Json) : Json :=
   Json.arr #[Json.str (if p.cond.isSome then "part" else "bare"),
     Json.str (match p.kind with | .modal => "MODAL_MARK" | .prefix_ => "PREFIX_OPERATOR"), str p.ind, cond]
@@ -242,6 +295,12 @@ def handle (j : Json) : Except String Json := do
     let f (k : String) : Except String Int := j.getObjValAs? Int k
     let w : Written := ⟨← f "y", ← f "m", ← f "d", ← f "H", ← f "M", ← f "S", ← f "off"⟩
     pure (Json.mkObj [("v931", hasNoUtcOffset w), ("strom", isStromtagLimit w), ("gas", isGastagLimit w)])
+  | "roundtrip" =>
+    let cls ← getStr j "cls"
+    let w ← jOfWire (← j.getObjVal? "json")
+    match roundTrip cls w with
+    | some d => pure (Json.mkObj [("json", wireOfJ d)])
+    | none => pure (Json.mkObj [("err", "ValidationError")])
   | _ => throw s!"unknown op {op}"
 
 partial def loop (h : IO.FS.Stream) (out : IO.FS.Stream) : IO Unit := do
